@@ -26,7 +26,15 @@ def var_mask(n, v):
     return _VAR_CACHE[k]
 
 
-def bdd_truth_table(doc, n):
+def _dense(labels, label):
+    """truth-table variable of a label: the label itself, or its position in `labels`
+    (the diagram lives in a manager whose variables are spread over many labels)"""
+    if labels is None:
+        return label
+    return labels.index(label)  # ValueError = the diagram mentions a variable it should not
+
+
+def bdd_truth_table(doc, n, labels=None):
     """doc = {"nodes": [{"topvar","low","high"}...], "roots": [ptr]}; returns list of ints (one per root)"""
     full = _mask(n)
     memo = {}
@@ -37,7 +45,7 @@ def bdd_truth_table(doc, n):
         nd = doc["nodes"][i]
         lo = ptr(nd["low"])
         hi = ptr(nd["high"])
-        x = var_mask(n, nd["topvar"])
+        x = var_mask(n, _dense(labels, nd["topvar"]))
         r = (x & hi) | (~x & full & lo)
         memo[i] = r
         return r
@@ -66,7 +74,7 @@ def bdd_check_postorder(doc):
     return True
 
 
-def sdd_truth_table(doc, n):
+def sdd_truth_table(doc, n, labels=None):
     full = _mask(n)
     memo = {}
 
@@ -85,7 +93,7 @@ def sdd_truth_table(doc, n):
         if p == "False":
             return 0
         if isinstance(p, dict) and "Literal" in p:
-            x = var_mask(n, p["Literal"]["label"])
+            x = var_mask(n, _dense(labels, p["Literal"]["label"]))
             return x if p["Literal"]["polarity"] else (~x & full)
         if isinstance(p, dict) and "Ptr" in p:
             q = p["Ptr"]
